@@ -88,10 +88,98 @@ var (
 	c36Sink     = common.HexToAddress("0x5100000000000000000000000000000000003610")
 	c36EnvRec   = common.HexToAddress("0xe400000000000000000000000000000000003611") // stores every block-context field it can observe
 	c36SlotRec  = common.HexToAddress("0xe500000000000000000000000000000000003612") // stores SLOTNUM (Amsterdam)
+	c36PrecRec  = common.HexToAddress("0xe600000000000000000000000000000000003613") // STATICCALLs a list of precompiles and stores success flag, return size and gas spent
 )
 
 // c36EnvOps: slot k of the environment recorder = value of op k; slot len(c36EnvOps) = BLOCKHASH(NUMBER-1).
 var c36EnvOps = []vm.OpCode{vm.NUMBER, vm.TIMESTAMP, vm.PREVRANDAO, vm.COINBASE, vm.GASLIMIT, vm.BASEFEE, vm.BLOBBASEFEE, vm.CHAINID}
+
+// ---------------------------------------------------------------------------
+// precompile recorder
+
+// c36PrecCall is one STATICCALL of the precompile recorder.
+type c36PrecCall struct {
+	name  string
+	addr  byte
+	input []byte
+	fails bool // the precompile's Run returns an error for this (well-sized) input
+	level int  // rule-set level from which the address is a precompile: 0 cancun, 1 prague, 2 osaka
+}
+
+func c36Pad32(v uint64) []byte { return common.LeftPadBytes(new(big.Int).SetUint64(v).Bytes(), 32) }
+
+// c36PrecCalls lists, for every cacheable precompile family, an input that is
+// accepted and an input of the right size that the precompile rejects.
+func c36PrecCalls() []c36PrecCall {
+	cat := func(parts ...[]byte) []byte {
+		var out []byte
+		for _, p := range parts {
+			out = append(out, p...)
+		}
+		return out
+	}
+	zeros := func(n int) []byte { return make([]byte, n) }
+	blake := func(final byte) []byte {
+		in := zeros(213)
+		in[3] = 1 // one round
+		in[212] = final
+		return in
+	}
+	bls := func(v uint64) []byte { return common.LeftPadBytes(new(big.Int).SetUint64(v).Bytes(), 64) }
+	return []c36PrecCall{
+		{"ecrecover(zeros)", 0x01, zeros(128), false, 0},
+		{"bn254add(inf,inf)", 0x06, zeros(128), false, 0},
+		{"bn254add(point-not-on-curve)", 0x06, cat(c36Pad32(1), c36Pad32(1), zeros(64)), true, 0},
+		{"bn254mul(inf,2)", 0x07, cat(zeros(64), c36Pad32(2)), false, 0},
+		{"bn254mul(point-not-on-curve)", 0x07, cat(c36Pad32(1), c36Pad32(1), c36Pad32(2)), true, 0},
+		{"bn254pairing(empty)", 0x08, nil, false, 0},
+		{"bn254pairing(point-not-on-curve)", 0x08, cat(c36Pad32(1), c36Pad32(1), zeros(128)), true, 0},
+		{"blake2f(final=1)", 0x09, blake(1), false, 0},
+		{"blake2f(final=2)", 0x09, blake(2), true, 0},
+		{"kzg-point-evaluation(zeros)", 0x0a, zeros(192), true, 0},
+		{"bls12-g1add(inf,inf)", 0x0b, zeros(256), false, 1},
+		{"bls12-g1add(point-not-on-curve)", 0x0b, cat(bls(1), bls(1), zeros(128)), true, 1},
+	}
+}
+
+// c36PrecCalldata encodes the calls as records [address word][length word][input].
+func c36PrecCalldata() []byte {
+	var out []byte
+	for _, c := range c36PrecCalls() {
+		out = append(out, c36Pad32(uint64(c.addr))...)
+		out = append(out, c36Pad32(uint64(len(c.input)))...)
+		out = append(out, c.input...)
+	}
+	return out
+}
+
+// c36PrecRecorderCode: for every record at calldata offset `off`:
+// ok = STATICCALL(200000 gas, address, input); SSTORE(off+1, ok + 1 + 256*(RETURNDATASIZE+1)); SSTORE(off+2, gas spent around the call).
+func c36PrecRecorderCode() []byte {
+	p := program.New().Push(0) // off
+	loop := p.Size()
+	p.Op(vm.JUMPDEST)
+	p.Op(vm.DUP1, vm.CALLDATASIZE, vm.GT, vm.ISZERO).Op(vm.PUSH2)
+	patch := p.Size()
+	p.Append([]byte{0, 0}).Op(vm.JUMPI)
+	p.Op(vm.DUP1).Push(32).Op(vm.ADD, vm.CALLDATALOAD)                  // [off, len]
+	p.Op(vm.DUP1, vm.DUP3).Push(64).Op(vm.ADD).Push(0).Op(vm.CALLDATACOPY) // mem[0:len] = input
+	p.Op(vm.GAS)                                                         // [off, len, g0]
+	p.Push(0).Push(0).Op(vm.DUP4).Push(0)                               // outSize, outOff, inSize, inOff
+	p.Op(vm.DUP7, vm.CALLDATALOAD)                                       // address
+	p.Push(200_000).Op(vm.STATICCALL)                                    // [off, len, g0, ok]
+	p.Op(vm.SWAP1, vm.GAS, vm.SWAP1, vm.SUB)                             // [off, len, ok, g0-gas]
+	p.Op(vm.DUP4).Push(2).Op(vm.ADD, vm.SSTORE)                          // SSTORE(off+2, spent)  [off, len, ok]
+	p.Push(1).Op(vm.ADD, vm.RETURNDATASIZE).Push(1).Op(vm.ADD).Push(256).Op(vm.MUL, vm.ADD) // ok+1+256*(rds+1)
+	p.Op(vm.DUP3).Push(1).Op(vm.ADD, vm.SSTORE)                          // SSTORE(off+1, ...)    [off, len]
+	p.Op(vm.ADD).Push(64).Op(vm.ADD)                                     // off += len + 64
+	p.Op(vm.PUSH2).Append([]byte{byte(loop >> 8), byte(loop)}).Op(vm.JUMP)
+	exit := p.Size()
+	p.Op(vm.JUMPDEST, vm.STOP)
+	b := p.Bytes()
+	b[patch], b[patch+1] = byte(exit>>8), byte(exit)
+	return b
+}
 
 type c36Entry struct {
 	name       string
@@ -176,6 +264,7 @@ func c36NewWorld(t testing.TB, f c36Fork) *c36World {
 	}
 	envrec.Push(1).Op(vm.NUMBER, vm.SUB, vm.BLOCKHASH).Push(len(c36EnvOps)).Op(vm.SSTORE, vm.STOP)
 	alloc[c36EnvRec] = types.Account{Code: envrec.Bytes(), Nonce: 1, Balance: common.Big0}
+	alloc[c36PrecRec] = types.Account{Code: c36PrecRecorderCode(), Nonce: 1, Balance: common.Big0}
 	alloc[c36SlotRec] = types.Account{Code: program.New().Op(vm.SLOTNUM).Push(0).Op(vm.SSTORE, vm.STOP).Bytes(), Nonce: 1, Balance: common.Big0}
 	w.gspec = &core.Genesis{Config: f.cfg, Alloc: alloc, GasLimit: 30_000_000, BaseFee: big.NewInt(params.InitialBaseFee), Timestamp: 1_700_000_000, Difficulty: common.Big0}
 
@@ -227,6 +316,7 @@ func c36NewWorld(t testing.TB, f c36Fork) *c36World {
 		{"TAIL", dyn(13, 0, &w.addrs[1], 2, 1_000_000, 1, nil), "always"},
 		// environment recorders (one storage slot per block-context field)
 		{"ENVREC", types.MustSignNewTx(w.keys[4], w.signer, &types.DynamicFeeTx{ChainID: chainID, Nonce: 0, To: &c36EnvRec, Value: new(big.Int), Gas: 3_000_000, GasFeeCap: gwei(10), GasTipCap: big.NewInt(4_500_000_000)}), "always"},
+		{"PRECREC", types.MustSignNewTx(w.keys[10], w.signer, &types.DynamicFeeTx{ChainID: chainID, Nonce: 0, To: &c36PrecRec, Value: new(big.Int), Gas: 10_000_000, GasFeeCap: gwei(10), GasTipCap: big.NewInt(2_500_000_000), Data: c36PrecCalldata()}), "always"},
 		{"SLOTREC", types.MustSignNewTx(w.keys[5], w.signer, &types.DynamicFeeTx{ChainID: chainID, Nonce: 0, To: &c36SlotRec, Value: new(big.Int), Gas: 1_000_000, GasFeeCap: gwei(10), GasTipCap: big.NewInt(3_500_000_000)}), "always"},
 	}
 	w.node, w.eth = startEthService(t, w.gspec, nil, func(c *ethconfig.Config) {
@@ -265,7 +355,7 @@ func c36Subsets(n, maxSize int) [][]int {
 func TestVerif_C36_engine(t *testing.T) {
 	mc.Run(t, "C36", func(r *mc.R) {
 		maxSize := mc.Pick(r, 3, 4)
-		r.Rule("rule sets {cancun, prague, osaka, amsterdam} x 2 payload-attribute combinations x every subset of <= max_pool_size transactions of a 15-entry alphabet added to the real pools of a full eth service (quick: pools of 2 and 3 transactions take one attribute combination each, round robin); " +
+		r.Rule("rule sets {cancun, prague, osaka, amsterdam} x 2 payload-attribute combinations x every subset of <= max_pool_size transactions of a 16-entry alphabet added to the real pools of a full eth service (quick: pools of 2 and 3 transactions take one attribute combination each, round robin, and of the pools of 3 only those containing two mutually dependent transactions); " +
 			"ForkchoiceUpdated(head=genesis, attributes) -> full payload -> NewPayload of the fork's version; distinct = distinct payload block hashes")
 		r.Bound("max_pool_size", maxSize)
 		r.Assume("one eth.Ethereum service per rule set, head stays at genesis, prevRandao unique per case; the transaction pools are the real legacypool and blobpool (blob sidecars with valid KZG commitments/proofs)")
@@ -304,6 +394,11 @@ func TestVerif_C36_engine(t *testing.T) {
 							}
 							// quick tier: pools of the maximal size take one attribute combination each (round robin)
 							if r.Quick() && len(s) >= 2 && si%len(attrs) != ai {
+								continue
+							}
+							// quick tier: of the pools of 3 only those in which two transactions depend on each other
+							// (same sender, or the drain group); the builder step enumerates all pools of 3
+							if r.Quick() && len(s) == 3 && !w.dependent(s) {
 								continue
 							}
 							names := []string{}
@@ -547,7 +642,13 @@ func (w *c36World) checkRecorders(block *types.Block) error {
 			slotPos = i
 		}
 	}
-	if envPos < 0 && slotPos < 0 {
+	precPos := -1
+	for i, tx := range block.Transactions() {
+		if tx.To() != nil && *tx.To() == c36PrecRec {
+			precPos = i
+		}
+	}
+	if envPos < 0 && slotPos < 0 && precPos < 0 {
 		return nil
 	}
 	bc := w.eth.BlockChain()
@@ -573,6 +674,31 @@ func (w *c36World) checkRecorders(block *types.Block) error {
 			}
 		}
 	}
+	if precPos >= 0 {
+		if receipts[precPos].Status != types.ReceiptStatusSuccessful {
+			return fmt.Errorf("precompile recorder failed (status %d, gas %d)", receipts[precPos].Status, receipts[precPos].GasUsed)
+		}
+		level := 0
+		if w.fork.prague {
+			level = 1
+		}
+		if w.fork.osaka {
+			level = 2
+		}
+		off := 0
+		for _, c := range c36PrecCalls() {
+			v := new(big.Int).SetBytes(word(c36PrecRec, off+1).Bytes())
+			flag := int(v.Uint64()&0xff) - 1
+			want := 1
+			if c.fails && level >= c.level {
+				want = 0
+			}
+			if flag != want {
+				return fmt.Errorf("precompile call %s: success flag %d in the accepted block's state, the precompile's specification gives %d", c.name, flag, want)
+			}
+			off += 64 + len(c.input)
+		}
+	}
 	if slotPos >= 0 {
 		ok := receipts[slotPos].Status == types.ReceiptStatusSuccessful
 		if ok != w.fork.amsterdam {
@@ -585,4 +711,16 @@ func (w *c36World) checkRecorders(block *types.Block) error {
 		}
 	}
 	return nil
+}
+
+// dependent reports whether two entries of the pool belong to one dependency group.
+func (w *c36World) dependent(subset []int) bool {
+	group := map[string]int{"XFER": 1, "XFER2": 1, "DRAIN_V": 2, "V_TX": 2, "TAIL": 2}
+	seen := map[int]int{}
+	for _, i := range subset {
+		if g := group[w.entries[i].name]; g != 0 {
+			seen[g]++
+		}
+	}
+	return seen[1] >= 2 || seen[2] >= 2
 }
